@@ -95,8 +95,13 @@ def gen_case(rng, lt):
         cfg["_z_source2"] = cfg["z_source"] + rng.uniform(0.3, 1.0)
     if lt in ("DdtHist", "DdtHistKDE", "DdtHistKin"):
         data["nbins_hist"] = 40
+    if lt == "DdtHist" and rng.random() < 0.6:
+        # the kernel-density variant over the full chain (bandwidth rule or dimensionless bandwidth factor): smooth in Ddt,
+        # so the rescaling statement holds to rounding
+        data["binning_method"] = rng.choice(["scott", "silverman", 0.3])
+    # the rescaling factor: of order one, and a change of units of the distance scale (Mpc <-> Gpc / kpc)
     return dict(ltype=lt, model=model, cfg=cfg, hyper=h, data=data, p1=gen_params(rng, model), p2=gen_params(rng, model),
-                c=rng.choice([rng.uniform(0.3, 3.0), 2.0, 0.5]), normalized=rng.random() < 0.5)
+                c=rng.choice([rng.uniform(0.3, 3.0), 2.0, 0.5, 1000.0, 1e-3, 40.0]), normalized=rng.random() < 0.5)
 
 
 def lens_value(case, data, params, normalized):
@@ -141,6 +146,8 @@ def oracle(case):
         if all(math.isfinite(v) and v > -1e6 for v in va + vb):
             d1, d2 = vb[1] - va[0], vb[0] - va[1]
             tol = 2e-3 if lt in ("DdtHist", "DdtHistKDE", "DdtHistKin") else 1e-6 * max(1.0, abs(d1))
+            if lt == "DdtHist" and case["data"].get("binning_method") is not None:
+                tol = 1e-7 * max(1.0, abs(d1))
             if abs(d1 - d2) > tol:
                 fails.append("%s (one object per data set, points visited in different orders): (H0*c, scale/c) changes the "
                              "log-likelihood by %r at one parameter point and %r at another (not a constant)" % (lt, d1, d2))
@@ -163,6 +170,8 @@ def oracle(case):
         tol = 1e-6 * max(1.0, abs(diffs[0]))
         if lt in ("DdtHist", "DdtHistKDE", "DdtHistKin"):
             tol = 2e-3     # histogram bin edges move with the samples; KDE tails
+            if lt == "DdtHist" and case["data"].get("binning_method") is not None:
+                tol = 1e-7 * max(1.0, abs(diffs[0]))
         if abs(diffs[0] - diffs[1]) > tol:
             fails.append("%s: (H0*c, scale/c) changes the log-likelihood by %r at one parameter point and %r at another (not a constant)"
                          % (lt, diffs[0], diffs[1]))
